@@ -1109,7 +1109,11 @@ fn oracle_case(case: &Case, obs: &[&str], ids: &[&str], st: &mut OracleStats, ca
                         if main.starts_with("v=") && *idl != "-" {
                             let key = (t.creator, t.k, t.occ);
                             if let Some(old) = last_id.get(&key) {
-                                if old != idl {
+                                // when the request's VALUE is already wrong through known finding kf3 (a stale
+                                // specifiable-function result steering which struct is created), the reference's
+                                // idea of "the same struct" does not apply: the value failure below reports it
+                                let kf3_here = has_late_mk && first_value_rev.is_some_and(|r| r < rev_no) && main != fmt_rv(&wantv);
+                                if old != idl && !kf3_here {
                                     fail(st, i, format!("key=struct-id-changed struct (creator {}, identity {}, occurrence {}) was recreated with the same identity but its id changed from {} to {}", t.creator, t.k, t.occ, old, idl));
                                 } else {
                                     *st.hist.entry("struct-id-kept".into()).or_default() += 1;
